@@ -42,6 +42,7 @@ type Case struct {
 	CtlLen         int         `json:"ctl_len,omitempty"`
 	CtlOp          int         `json:"ctl_op,omitempty"`
 	CtlAPI         string      `json:"ctl_api,omitempty"` // "" = WriteMessage, "close" = WriteClose(code, reason), "frame" = WriteFrame
+	CtlLenEnc      int         `json:"ctl_len_enc,omitempty"` // recv-control: 0 minimal, 1 force the 16-bit form, 2 force the 64-bit form
 }
 
 var inline = func(f func()) { f() }
@@ -116,6 +117,12 @@ func runCaseInner(c Case) vlib.Result {
 			gotPayloads = append(gotPayloads, nil)
 		}
 	})
+	var ctlSeen []int // payload lengths handed to the ping / pong / close handlers
+	if c.Mode == "recv-control" {
+		u.SetPingHandler(func(_ *websocket.Conn, data string) { ctlSeen = append(ctlSeen, len(data)) })
+		u.SetPongHandler(func(_ *websocket.Conn, data string) { ctlSeen = append(ctlSeen, len(data)) })
+		u.SetCloseHandler(func(_ *websocket.Conn, code int, text string) { ctlSeen = append(ctlSeen, 2+len(text)) })
+	}
 	var wsc *websocket.Conn
 	if c.ReceiverClient {
 		wsc = websocket.NewClientConn(u, conn, "", true, false)
@@ -132,6 +139,43 @@ func runCaseInner(c Case) vlib.Result {
 	defer wsc.CloseAndClean(nil)
 
 	switch c.Mode {
+	case "recv-control":
+		// one control frame of CtlLen bytes, its length written in the drawn form, fed whole or in pieces
+		payload := bytes.Repeat([]byte("c"), c.CtlLen)
+		if c.CtlOp == vlib.OpClose && c.CtlLen >= 2 {
+			binary.BigEndian.PutUint16(payload, 1000)
+		}
+		f := vlib.WSFrame{Fin: true, Op: c.CtlOp, Masked: !c.ReceiverClient, Key: 77, Payload: payload, LenEnc: c.CtlLenEnc}
+		wire := f.Encode()
+		sz := c.CutSize
+		if sz <= 0 {
+			sz = len(wire)
+		}
+		var perr error
+		for i := 0; i < len(wire) && perr == nil && !conn.IsClosed(); i += sz {
+			e := i + sz
+			if e > len(wire) {
+				e = len(wire)
+			}
+			perr = wsc.Parse(append([]byte(nil), wire[i:e]...))
+		}
+		for _, n := range ctlSeen {
+			if n > 125 {
+				res.Err = fmt.Errorf("a control frame (opcode %d) with %d bytes of payload (length form %d) reached its handler; control frames above 125 bytes must be refused on receive", c.CtlOp, n, c.CtlLenEnc)
+				return res
+			}
+		}
+		if c.CtlLen > 125 && perr == nil && !conn.IsClosed() {
+			res.Err = fmt.Errorf("a control frame (opcode %d) with %d bytes of payload (length form %d) was not refused: no Parse error and the connection is open", c.CtlOp, c.CtlLen, c.CtlLenEnc)
+			return res
+		}
+		if c.CtlLen <= 125 && c.CtlLenEnc == 0 && (perr != nil || len(ctlSeen) != 1) {
+			res.Err = fmt.Errorf("a legal control frame (opcode %d, %d bytes) was not handed to its handler exactly once: Parse error %v, handler calls %v", c.CtlOp, c.CtlLen, perr, ctlSeen)
+			return res
+		}
+		res.Classes = append(res.Classes, fmt.Sprintf("recv-control/lenform=%d", c.CtlLenEnc))
+		res.NonTrivial = c.CtlLen > 125 || c.CtlLenEnc != 0
+		return res
 	case "send-control":
 		payload := bytes.Repeat([]byte("c"), c.CtlLen)
 		if c.CtlOp == vlib.OpClose && c.CtlLen >= 2 {
@@ -421,6 +465,14 @@ func gen(maxBomb int) func(t *rapid.T) Case {
 		c.Alloc = rapid.SampledFrom([]string{"tracker", "tracker", "pool", "aligned"}).Draw(t, "alloc")
 		c.L = rapid.SampledFrom([]int{1, 125, 1000, 3000, 65536, 1 << 20}).Draw(t, "limit")
 		switch rapid.IntRange(0, 11).Draw(t, "mode") {
+		case 3:
+			c.Mode = "recv-control"
+			c.CtlOp = rapid.SampledFrom([]int{vlib.OpPing, vlib.OpPong, vlib.OpClose}).Draw(t, "ctlop")
+			c.CtlLen = rapid.SampledFrom([]int{0, 2, 125, 126, 127, 200, 65535, 65536, 70000}).Draw(t, "ctllen")
+			c.CtlLenEnc = rapid.IntRange(0, 2).Draw(t, "ctllenenc")
+			c.CutSize = rapid.SampledFrom([]int{0, 1, 7, 1000}).Draw(t, "cutsize")
+			c.L = rapid.SampledFrom([]int{0, 1000}).Draw(t, "ctllimit")
+			return c
 		case 0:
 			c.Mode = "send-control"
 			c.CtlOp = rapid.SampledFrom([]int{vlib.OpPing, vlib.OpPong, vlib.OpClose}).Draw(t, "ctlop")
